@@ -100,13 +100,14 @@ PROPS['C06'] = {
                    'the start of the root directory; 64-bit to 32-bit narrowing happens only behind a proved range or a '
                    'reasoned entry; FatType::from_clusters implements the specified thresholds exactly (decision table '
                    'over all u32). Panic sites outside the sizing arithmetic are discharged by interval analysis under '
-                   'the validated-BPB and option-setter invariants. NOT decided: that the sizing heuristics find a '
+                   'the validated-BPB and option-setter invariants; inside the sizing arithmetic the division sites are '
+                   'analysed too (a zero divisor panics in every build). NOT decided: that the sizing heuristics find a '
                    'satisfiable layout for every size from 42 sectors to 2^32-1 (numeric), and absence of overflow inside '
-                   'them (their sites are counted in the evidence as not analysed).',
+                   'them (those sites are counted in the evidence as not analysed).',
     'claim': 'Validate-before-write, error kinds, boot-sector copies, initialisation steps and values, narrowing casts '
              'and the FAT-width table hold on every path for every option set; the sizing arithmetic itself (success for '
              'every size, no overflow inside the heuristics) is not decided.',
-    'level_note': 'V0 excludes the 23 functions reachable from format_boot_sector (count reported as V0.not-analysed)',
+    'level_note': 'V0 analyses only the division sites of the 23 functions reachable from format_boot_sector (the rest is reported as V0.not-analysed)',
     'technique': 'static analysis: dominance / must-pass-through / dependence on MIR + interval abstract interpretation + '
                  'decision table',
     'assumptions': COMMON_ASSUMPTIONS + ['FormatVolumeOptions values are built through the public setters (their asserts '
